@@ -12,7 +12,7 @@
 From Coq Require Import List Bool Arith.
 From SV Require Import SM.AtomicWriter SM.AtomicWriterProofs SM.AtomicWriterThms SM.AtomicExit SM.AtomicExitProofs
   SM.AtomicOpenLoopProofs SM.AtomicSameDestProofs SM.AtomicReuse SM.AtomicReuseProofs SM.AtomicRetry
-  SM.AtomicRetryProofs SM.AtomicProduct SM.AtomicProductProofs.
+  SM.AtomicRetryProofs SM.AtomicProduct SM.AtomicProductProofs SM.AtomicAbandon SM.AtomicAbandonProofs.
 Import ListNotations.
 
 (** Old or new, never a mixture; new exactly when the replace has succeeded — at every point of every execution,
@@ -538,3 +538,85 @@ Theorem c12_product_example :
   sdt st (File 0) = Some [2; 3] /\ sdt st (File 1) = Some [7; 8] /\ sdt st (Tmp 1) = None /\ sdt st (Tmp 2) = Some [777] /\
   In (false, (EOpen 1, RExist)) (trt st).
 Proof. exact product_example. Qed.
+
+(** * Entering a writer that still holds a temp file (round 5, SM/AtomicAbandon.v)
+
+    A use that was entered and written but never exited leaves the object with an open handle and its temp file tmp_j.
+    The statements of [make_tempfile] before mkdir / the temp-name loop (generated: [aw_entry_prog]) decide what the next
+    entry does with it; [reentry_tree] is their decision tree in a state with a handle, [gives_up] the shape "close the
+    handle, remove the file by name, only then go on; a failing close fails the entry" (obligation
+    [reuse_entry_gives_up_a_temp_file_left_open] = [reentry_ok aw_obj aw_entry_prog]).  For every such tree, every
+    directory, every pattern of refused operations in the prologue and in the use that follows (one writer alone; [x]:
+    any exit protocol with the hypotheses of [c12_property]): nothing but tmp_j changes in the prologue; if the entry
+    goes on, the use is a good single use relative to the directory the prologue left, and the destination ends up with
+    its previous content or with the complete new content of THIS use — written to a temp file the temp-name loop
+    created afresh — never with anything the abandoned attempt wrote. *)
+Theorem c12_reentry_after_abandoned_use : forall x, retry_ok x = true -> proto_outcome_ok x = true ->
+  forall t, gives_up t = true -> forall j fs d s faults,
+  let d' := fst (pro_run t j fs d) in
+  let r := snd (pro_run t j fs d) in
+  let st := alonet x s faults d' in
+  (exists b, r = Some b) /\
+  (forall n, n <> Tmp j -> d' n = d n) /\
+  (d' (Tmp j) = None \/ d' (Tmp j) = d (Tmp j)) /\
+  (r = Some false ->
+     good_use d' s st /\
+     sdt st (File (dest s)) = (if committedt (q1 st) then Some (new s) else d (File (dest s)))).
+Proof. exact reentry_then_good_use. Qed.
+
+(** The obligation on the generated object gives the hypothesis for every attribute state with a handle. *)
+Theorem c12_reentry_obligation_gives_the_shape : forall o p, reentry_ok o p = true ->
+  forall a, In a (holding o) -> gives_up (reentry_tree o p a) = true.
+Proof. exact reentry_ok_gives_up. Qed.
+
+(** Today's prologue (and the one of rounds 1-4) gives the file up; only today's forgets the handle when the entry
+    fails (the defect repaired in round 5: a later entry unlinked the stale NAME again); a prologue that keeps a handle
+    that is still open and returns (seeded c12_8: truncate(0) without seek, NUL padding + new data are committed) has the
+    tree [XBad] — it ends before any temp file is created —, [reentry_ok] is false. *)
+Theorem c12_reentry_keeps_open_handle_refuted :
+  reentry_ok obj_fixed prologue_r4 = true /\ reentry_forgets obj_fixed prologue_r4 = false /\
+  reentry_ok obj_fixed prologue_r5 = true /\ reentry_forgets obj_fixed prologue_r5 = true /\
+  entry_inert obj_fixed prologue_r5 = true /\
+  reentry_ok obj_fixed prologue_keep_open_handle = false /\
+  reentry_tree obj_fixed prologue_keep_open_handle [Some VTemp; Some VTName; Some VDest] = XBad /\
+  reentry_tree obj_fixed prologue_r5 [Some VTemp; Some VTName; Some VDest]
+    = XClose (XUnlink (XDone false) (XDone true) (XDone false)) (XUnlink (XDone true) (XDone true) (XDone true)).
+Proof. exact reentry_examples. Qed.
+
+(** Not vacuous: the repaired prologue on a directory in which the object holds tmp_1. *)
+Theorem c12_reentry_example :
+  let t := reentry_tree obj_fixed prologue_r5 [Some VTemp; Some VTName; Some VDest] in
+  let d := upd d_old (Tmp 1) (Some [9]) in
+  snd (pro_run t 1 [] d) = Some false /\ fst (pro_run t 1 [] d) (Tmp 1) = None /\
+  snd (pro_run t 1 [true] d) = Some true /\ fst (pro_run t 1 [true] d) (Tmp 1) = None /\
+  fst (pro_run t 1 [] d) (File 0) = d_old (File 0).
+Proof. exact reentry_run_example. Qed.
+
+(** * The property for the generated object (round 5: consolidation)
+
+    Every hypothesis is a boolean computed by the kernel on objects the translator generates from today's source — [o]
+    (aw_obj: the __exit__ program, the attribute facts, the open modes), [p] (aw_entry_prog: the statements of
+    make_tempfile before mkdir), [n] (aw_nclasses) — and discharged on every run as the instance obligation
+    [c12_property_of_generated_object_hypotheses]; what remains is [In r (run_classes n)] (the class of exception the
+    refused operations of the run raise), [dest s1 <> dest s2] inside [two_writer_property] (the property speaks of
+    writers to different files) and [hstates_ok] (the attribute states of a history keep the constants).  Conclusion, for
+    the exit protocol [x] of the object under run class [r]: [two_writer_property x] = the conclusion of [c12_property]
+    (old or complete new at every point of every schedule, raised iff not committed and then the old contents, an
+    abandoned body never commits, no temp file after a handled failure, isolation of the two writers); every history of
+    complete uses of the object is good use by use (when the uncollapsed protocol is in the family: no retry loop); and
+    entering the object while it still holds a temp file gives that file up and is followed by a good use. *)
+Theorem c12_property_of_generated_object : forall n o p r,
+  all_classes n o (fun o' => retry_ok (obj_proto o') && proto_outcome_ok (obj_proto o') && reuse_indep o') = true ->
+  reentry_ok o p = true -> In r (run_classes n) ->
+  let o' := with_class r o in
+  let x := obj_proto o' in
+  two_writer_property x /\
+  (proto_ok x = true -> forall h, hstates_ok o' h -> forall d, hist_good o' h d) /\
+  (forall a, In a (holding o) -> reentry_property x (reentry_tree o p a)).
+Proof. exact generated_object_property. Qed.
+
+Theorem c12_generated_object_hypotheses_hold :
+  all_classes 8 obj_fixed (fun o' => retry_ok (obj_proto o') && proto_outcome_ok (obj_proto o') && reuse_indep o') = true /\
+  reentry_ok obj_fixed prologue_r5 = true /\ reentry_ok obj_fixed prologue_r4 = true /\
+  all_classes 8 obj_fixed (fun o' => proto_ok (obj_proto o')) = true /\ holding obj_fixed <> [].
+Proof. exact generated_object_hypotheses_hold. Qed.
